@@ -31,6 +31,10 @@ type c06Op struct {
 	C      int    `json:"c,omitempty"`
 	N      int    `json:"n,omitempty"`
 	H      int    `json:"h,omitempty"`
+	// bf / af: the hook, EVERY time it runs, itself registers a hook: Sub = "bf" | "af", id SubH
+	// (the registered hook is an observer)
+	Sub  string `json:"sub,omitempty"`
+	SubH int    `json:"subh,omitempty"`
 	CT     int    `json:"ct,omitempty"`  // blob: 1 String, 2 HTML, 3 JSONBlob, 7 Blob(image/png)
 	Bad    bool   `json:"bad,omitempty"` // json: value that cannot be serialised
 	Chunks []int  `json:"chunks,omitempty"`
@@ -557,7 +561,8 @@ func c06ExpectedFirstStatus(o c06Op, pending int) (int, bool) {
 }
 
 // the hook / ordering clauses of the property as a scanner over the recorded events
-// (same automaton as C06.Scan.next in lean/EchoProofs/C06.lean; no model involved)
+// (same automaton as C06H.Scan.next in lean/EchoProofs/C06Hooks.lean, which is C06.Scan.next of
+// lean/EchoProofs/C06.lean plus registrations while hooks run; no model involved)
 func c06ScanTrace(tr []c06Ev) string {
 	var bef, aft []int
 	const (
@@ -569,17 +574,12 @@ func c06ScanTrace(tr []c06Ev) string {
 	var rest []int // running: before-hooks still to run; out: after-hooks still to run
 	for i, e := range tr {
 		bad := func(msg string) string { return fmt.Sprintf("event %d: %s", i, msg) }
-		quiet := ph == idle || (ph == out && len(rest) == 0)
 		switch e.code {
 		case c06RegB:
-			if !quiet {
-				return bad("hook registered while hooks were running")
-			}
+			// a hook may register hooks while hooks are running: the round in progress is not
+			// affected (Go reads the slice once), later rounds / body writes see the new hook
 			bef = append(bef, e.arg)
 		case c06RegA:
-			if !quiet {
-				return bad("hook registered while hooks were running")
-			}
 			aft = append(aft, e.arg)
 		case c06RunB:
 			if ph == idle {
@@ -690,14 +690,25 @@ func c06Exec(env *c06Env, ctx echo.Context, o c06Op, onBefore, onAfter func(h in
 		retN, err = r.Write(make([]byte, o.N))
 	case "fl":
 		r.Flush()
-	case "bf":
-		h := o.H
-		onReg(c06RegB, h)
-		r.Before(func() { onBefore(h) })
-	case "af":
-		h := o.H
-		onReg(c06RegA, h)
-		r.After(func() { onAfter(h) })
+	case "bf", "af":
+		h, sub, subH := o.H, o.Sub, o.SubH
+		child := func() { // what the hook does beyond being seen: register a hook of its own
+			switch sub {
+			case "bf":
+				onReg(c06RegB, subH)
+				r.Before(func() { onBefore(subH) })
+			case "af":
+				onReg(c06RegA, subH)
+				r.After(func() { onAfter(subH) })
+			}
+		}
+		if o.K == "bf" {
+			onReg(c06RegB, h)
+			r.Before(func() { onBefore(h); child() })
+		} else {
+			onReg(c06RegA, h)
+			r.After(func() { onAfter(h); child() })
+		}
 	case "json", "jsonpretty", "jsonpv", "xmlv", "xmlpretty":
 		var v interface{} = make(chan int)
 		if !o.Bad {
@@ -1273,7 +1284,82 @@ func c06Run(ci any) (res Result) {
 	if carried && last.w.out {
 		nontrivial = true
 	}
+	if c06HasSubHooks(c) {
+		// hooks that register hooks: the small model of lean/EchoModel/C06Hooks.lean (or no model
+		// comparison at all when the case uses what that model does not have)
+		for _, ops := range progs {
+			for _, o := range ops {
+				if o.Sub != "" {
+					tl = append(tl, "hook-registers-hook:"+o.K+">"+o.Sub)
+				}
+			}
+		}
+		line := c06HookLine(c)
+		hobs := ""
+		if line != "" && len(last.snaps) > 0 {
+			f := last.snaps[len(last.snaps)-1]
+			p := []string{wBool(f.committed), wCode(f.status), wInt(f.size), wInt(f.ncalls), wInt(f.body), wInt(len(last.trace))}
+			for _, ev := range last.trace {
+				p = append(p, wInt(ev.code), wInt(ev.arg))
+			}
+			hobs = strings.Join(p, " ")
+		}
+		return Result{Ops: line, Obs: hobs, Oracle: oracle, Tags: tl, Nontrivial: true}
+	}
 	return Result{Ops: c06Ops(c), Obs: strings.Join(obs, " "), Oracle: oracle, Tags: tl, Nontrivial: nontrivial}
+}
+
+func c06HasSubHooks(c *c06Case) bool {
+	for _, ops := range c06Programs(c) {
+		for _, o := range ops {
+			if (o.K == "bf" || o.K == "af") && o.Sub != "" {
+				return true
+			}
+		}
+	}
+	return false
+}
+
+// model line for the hooks model ("H status0 nops op*"), or "" when the case is outside it
+func c06HookLine(c *c06Case) string {
+	if len(c.Prev) > 0 || c.Cap >= 0 || c06NoFlush(c) || c06Strict(c) {
+		return ""
+	}
+	p := 200
+	if c.Fresh {
+		p = 0
+	}
+	parts := []string{"H", wInt(p), wInt(len(c.Ops))}
+	hook := func(o c06Op) string {
+		switch o.Sub {
+		case "bf":
+			return wJoin(wInt(o.H), "1", wInt(o.SubH))
+		case "af":
+			return wJoin(wInt(o.H), "2", wInt(o.SubH))
+		}
+		return wJoin(wInt(o.H), "0")
+	}
+	for _, o := range c.Ops {
+		switch o.K {
+		case "wh", "nc":
+			parts = append(parts, wJoin("1", wCode(o.C)))
+		case "w", "wstr":
+			parts = append(parts, wJoin("2", wInt(o.N)))
+		case "fl", "rcfl", "fefl":
+			parts = append(parts, "3")
+		case "bf":
+			parts = append(parts, wJoin("4", hook(o)))
+		case "af":
+			parts = append(parts, wJoin("5", hook(o)))
+		case "json", "jsonpretty":
+			parts = append(parts, wJoin("6", wCode(o.C), wInt(o.N), wBool(!o.Bad)))
+		case "blob":
+			parts = append(parts, wJoin("7", wCode(o.C), wInt(o.N)))
+		default:
+			return ""
+		}
+	}
+	return strings.Join(parts, " ")
 }
 
 func c06Ops(c *c06Case) string {
